@@ -610,7 +610,35 @@ def random_population(rng):
     m = rng.choice([1, 2, 2, 2, 3, 3, 3, 4, 4, 4, 5])
     n = rng.randint(2, 8)
     w = [rng.choice(WEIGHTS) for _ in range(m)]
-    style = rng.choice(["ties", "ties", "mid", "dyadic", "front", "dup"])
+    style = rng.choice(["ties", "ties", "mid", "dyadic", "front", "dup", "tiny"])
+    if style == "tiny":
+        # contributions spanning many orders of magnitude: a staircase over a wide integer range with
+        # near-coincident steps (contribution ~1 of a total ~1e6) placed BEFORE a true zero contributor
+        # (dominated or duplicated point), so that an approximate "no contribution" test picks the wrong index
+        m = 2
+        w = [rng.choice(["1", "-1"]) for _ in range(m)]
+        big = rng.choice([1000, 4000, 30000])
+        n = rng.randint(3, 7)
+        xs = sorted(rng.sample(range(0, big), n))
+        ys = sorted(rng.sample(range(0, big), n), reverse=True)
+        pts = [[xs[i], ys[i]] for i in range(n)]
+        j = rng.randrange(n)
+        if j + 1 < n:
+            pts[j] = [pts[j + 1][0] - 1, pts[j + 1][1] + rng.choice([1, 1, 2])]       # tiny contributor
+        r = rng.random()
+        if r < 0.45:
+            k = rng.randrange(n)
+            pts.append([pts[k][0] + rng.randint(0, 50), pts[k][1] + rng.randint(0, 50)])   # dominated: zero
+        elif r < 0.8:
+            pts.append(list(pts[rng.randrange(n)]))                                         # duplicate: zero
+        if rng.random() < 0.3:
+            rng.shuffle(pts)
+        # wobj = -(value*weight): choose values so that the minimised coordinates are pts
+        vals = [[Fr(-c) if Fr(w[i]) > 0 else Fr(c) for i, c in enumerate(p)] for p in pts]
+        ref = None
+        if rng.random() < 0.5:
+            ref = [sfr(max(p[i] for p in pts) + rng.choice([1, 1, 2, 100])) for i in range(m)]
+        return w, [[sfr(x) for x in v] for v in vals], ref
     if style == "front":
         s = rng.randint(m, 3 * m)
         vals = []
